@@ -245,6 +245,24 @@ def _rows(args):
                 data = b"\x42\x00\x7b\x01" + struct.pack("!I", len(body)) + body
             elif row["resp"] == "empty":
                 data = b""
+            elif row["resp"] == "short_struct":
+                try:
+                    full_ok = build_response(ver, row["op"], "success", payload, row["reason"], message)
+                except Exception as e:
+                    out.append({"row": row, "ver": ver, "skip": "response not encodable: %r" % (e,)})
+                    continue
+                # drop the last item of the deepest last structure, keep every inner length, make the frame length honest
+                from .. import rawttlv as RT
+                tree = RT.parse(full_ok)
+                node = tree[0]
+                while node[1] == RT.STRUCT and node[2] and node[2][-1][1] == RT.STRUCT and node[2][-1][2]:
+                    node = node[2][-1]
+                last = RT.serialise([node[2][-1]]) if node[1] == RT.STRUCT and node[2] else b""
+                if not last or len(last) >= len(full_ok) - 8:
+                    out.append({"row": row, "ver": ver, "skip": "nothing to cut"})
+                    continue
+                data = full_ok[:len(full_ok) - len(last)]
+                data = data[:4] + struct.pack("!I", len(data) - 8) + data[8:]
             else:
                 try:
                     data = build_response(ver, row["op"], row["resp"], payload, row["reason"], message)
